@@ -106,6 +106,74 @@ def _chunk(items):
     return out
 
 
+def _chunk_lm(items):
+    """the real LMWrapper around a freshly constructed torch language model WITH dropout (delivered in training mode, as an
+    un-pickled or freshly built model is): the wrapper must leave no randomness in decoding"""
+    core.setup_repo_path()
+    import numpy as np
+    import torch
+    torch.set_num_threads(1)
+    from pero_ocr.decoding.decoders import CTCPrefixLogRawNumpyDecoder, BLANK_SYMBOL
+    from pero_ocr.decoding.lm_wrapper import LMWrapper
+    chars = ['a', 'b', 'c']
+    H = 8
+
+    class Net(torch.nn.Module):
+        def __init__(self, n):
+            super().__init__()
+            self.embedding = torch.nn.Embedding(n, H)
+            self.lstm = torch.nn.LSTM(H, H, num_layers=2, dropout=0.5, batch_first=True)
+
+        def forward(self, xs, hs):
+            return self.lstm(self.embedding(xs), hs)
+
+        def init_hidden(self, bsz):
+            return (torch.zeros((2, bsz, H)), torch.zeros((2, bsz, H)))
+
+    class Out(torch.nn.Module):
+        def __init__(self, n):
+            super().__init__()
+            self.dropout = torch.nn.Dropout(0.5)
+            self.projection = torch.nn.Linear(H, n)
+
+        def forward(self, hs):
+            return torch.nn.functional.log_softmax(2.0 * self.projection(self.dropout(hs)), dim=-1)
+
+    class LM(torch.nn.Module):
+        def __init__(self):
+            super().__init__()
+            self.vocab = {'</s>': 0}
+            for c in chars:
+                self.vocab[c] = len(self.vocab)
+            self.model = Net(len(self.vocab))
+            self.decoder = Out(len(self.vocab))
+            self._unused_prefix_len = 1
+    out = {'evaluations': 0, 'nontrivial': 0, 'failures': [], 'samples': []}
+    for seed, k in items:
+        out['evaluations'] += 1
+        out['nontrivial'] += 1
+        torch.manual_seed(seed)
+        lm = LM()                      # training mode, as constructed
+        dec = CTCPrefixLogRawNumpyDecoder(chars + [BLANK_SYMBOL], k=k, lm=LMWrapper(lm, chars, torch.device('cpu')), lm_scale=1.0)
+        rng = np.random.RandomState(seed)
+        lg = rng.uniform(0.5, 2.0, size=(6, 4))
+        lg = lg - np.log(np.exp(lg).sum(axis=1, keepdims=True))
+        runs = []
+        try:
+            for _ in range(3):
+                boh = dec(lg)
+                runs.append(sorted((h.transcript, round(float(h.vis_sc), 9), round(float(h.lm_sc), 9)) for h in boh))
+        except Exception as e:
+            out['failures'].append({'clause': 'no-exception', 'input': {'seed': seed, 'k': k, 'lm': 'training-mode LSTM with dropout'}, 'observed': repr(e)})
+            continue
+        if any(r != runs[0] for r in runs[1:]):
+            out['failures'].append({'clause': 'same-line-twice-identical', 'input': {'seed': seed, 'k': k, 'lm': 'training-mode LSTM with dropout'},
+                                    'observed': 'decoding one matrix three times through one decoder gave %r / %r / %r' % (runs[0][:2], runs[1][:2], runs[2][:2])})
+        if len(out['samples']) < 2:
+            out['samples'].append({'seed': seed, 'k': k, 'hypotheses': len(runs[0])})
+    return out
+
+
 def run(ctx):
     thorough = ctx.tier == 'thorough'
     ctx.level = 'other'
@@ -161,6 +229,15 @@ def run(ctx):
     ctx.add_bounded('engine-histories', 'one stub-network OCR engine instance: 5 earlier page line-width lists x 5 pages x batch sizes {1,2,8}',
                     res2['evaluations'], res2['evaluations'], True, res2['samples'], fails2, rule='every (history, page, batch size); all non-trivial',
                     clause='recognition of a page after any history equals recognition of the page alone')
+    res3 = bounded.pmap(_chunk_lm, bounded.shard([(sd, k) for sd in range(1, 9 if thorough else 5) for k in (2, 4)], 4))
+    fails3 = []
+    if res3['failures']:
+        f = sorted(res3['failures'], key=lambda f: str(f['input']))[0]
+        fails3.append(Failure(sig('rt', 'LMWrapper', f['clause']), '%s: %s on %s' % (f['clause'], f['observed'], f['input']),
+                              function='LMWrapper / CTCPrefixLogRawNumpyDecoder.__call__', input=f['input'], observed=f['observed'], clause=f['clause']))
+    ctx.add_bounded('lm-wrapper-determinism', 'real LMWrapper around a freshly constructed 2-layer LSTM LM with dropout (training mode as delivered) x seeds x beam widths {2,4}: one matrix decoded three times',
+                    res3['evaluations'], res3['nontrivial'], True, res3['samples'], fails3, rule='every (seed, beam width)',
+                    clause='processing the same line twice through one decoder gives identical hypotheses and scores')
     bounded.close()
     ctx.trusted += ['A6: the decoder object and its LM are pure functions of their arguments (LMWrapper methods assign no attribute: checked by the frame scan)',
                     'module-level RNG reads in layout stages (random tie-breaks between lines with equal coordinates) are listed by the frame scan, not proved absent',
